@@ -765,6 +765,9 @@ RULES.insert(5, ("C08.NULLFIELD", "quick", rule_nullfield))
 
 # ----------------------------------------------------------------- OPTIONAL
 def _is_next_none(v):
+    """`next(<search>, None)` or `getFirstMatching(<ours>, <peer's>)`: None when nothing matches."""
+    if isinstance(v, ast.Call) and isinstance(v.func, ast.Name) and v.func.id == "getFirstMatching":
+        return True
     return isinstance(v, ast.Call) and isinstance(v.func, ast.Name) and v.func.id == "next" and \
         len(v.args) == 2 and isinstance(v.args[1], ast.Constant) and v.args[1].value is None
 
@@ -799,13 +802,27 @@ def rule_optional(ctx):
                     if isinstance(x, (ast.Attribute, ast.Subscript)) and isinstance(x.value, ast.Name) \
                             and x.value.id == v and not _guarded_in_expr(u.expr, x.value, v):
                         uses.append(u)
-            ctx.check(R, not uses, fi.qname, "`%s = next(.., None)` used only after a not-None test" % v,
+                # the value handed on (argument, stored, returned) while it may still be None
+                if u.kind != "test" and not uses:
+                    for x in ast.walk(u.expr):
+                        if isinstance(x, ast.Call):
+                            for a in list(x.args) + [k.value for k in x.keywords]:
+                                if isinstance(a, ast.Name) and a.id == v and call_name(x) not in ("bool", "isinstance", "str", "repr"):
+                                    uses.append(u)
+            ctx.check(R, not uses, fi.qname, "`%s = %s(..)` used only after a not-None test" % (v, b.value.func.id),
                       "`%s` is None when nothing in the peer's message matches, and `%s` dereferences it without a "
                       "preceding test: the peer can make the handshake die with AttributeError/TypeError instead of "
                       "an alert" % (v, norm(uses[0].ast)[:70] if uses else ""),
                       fi.loc(uses[0].ast) if uses else fi.loc(b), path=lines(g.path(seen, uses[0].id)) if uses else None,
                       what="%s %s" % (fi.short, v))
-    ctx.require(sites >= 4, "C08.OPTIONAL: %d `next(.., None)` bindings found, floor 4" % sites)
+    # getFirstMatching really is a may-return-None search (the rule relies on its name only here)
+    gfm = ctx.index.func("utils.lists:getFirstMatching")
+    rets = [r for r in own_nodes(gfm.node) if isinstance(r, ast.Return)]
+    ctx.check(R, any(isinstance(r.value, ast.Constant) and r.value.value is None or _is_next_none(r.value) for r in rets),
+              gfm.qname, "getFirstMatching returns None when nothing matches",
+              "getFirstMatching no longer returns None for `no match`; the OPTIONAL rule's premise must be re-confirmed",
+              gfm.loc())
+    ctx.require(sites >= 8, "C08.OPTIONAL: %d `next(.., None)` / getFirstMatching bindings found, floor 8" % sites)
 
 
 RULES.insert(6, ("C08.OPTIONAL", "quick", rule_optional))
